@@ -24,10 +24,12 @@ FAMILY = {
     3: ("x = 1\r\ny = 2\r\nz = [x, y, x + y]\r\nfor item in z:\r\n    print(item)\r\n"
         "result = sum(z)\r\nassert result == 6\r\nprint('done', result)\r\n"),
     4: ("raw cell content\nsecond raw line\nthird line is here\nfourth\nfifth and last line without newline"),
-    5: ("<<<<<<< HEAD\nnot really a conflict, just text\n=======\nstill ordinary text\n>>>>>>> branch\n"
+    # text that looks like conflict markers, and like diff's own end-of-file note (three times within one hunk)
+    5: ("<<<<<<< HEAD\nnot really a conflict, just text\n=======\n\\ No newline at end of file\n"
+        "\\ No newline at end of file\nstill ordinary text\n\\ No newline at end of file\n>>>>>>> branch\n"
         "||||||| base\nsome more words to make this long enough\nand another line\n"),
     6: ("line one\x0bline two\x85line three\u2028line four\u2029line five\x1cline six\n"
-        "ordinary line seven\rline eight after bare CR\nline nine\n"),
+        "ordinary line seven\rline eight after bare CR\nline nine with a NUL \x00 character (tools take it for binary)\n"),
     7: ("def new_function(arg):\n    # freshly inserted cell\n    value = arg ** 2\n"
         "    print('value is', value)\n    return value\n\nnew_function(12)\nnew_function(13)\n"),
     8: ("## A newly inserted heading\n\nParagraph one of the new cell.\n\nParagraph two of the new cell,\n"
@@ -125,7 +127,8 @@ def outputs_variant(v, ec, fam):
     if v == 2:
         return [{"output_type": "execute_result", "execution_count": ecv, "metadata": {},
                  "data": {"text/plain": "<module.Foo at 0x7f3a2b1c9d8e>", "image/png": B64A, "image/gif": TINY_A,
-                          "application/vnd.Acme.Chart+xml": XML_A, "text/HTML": "<b>first run</b>\n<i>same line</i>\n"}}]
+                          "application/vnd.Acme.Chart+xml": XML_A, "text/HTML": "<b>first run</b>\n<i>same line</i>\n",
+                          "application/json": 1}}]
     if v == 3:
         return [{"output_type": "stream", "name": "stdout", "text": "partial output\n"},
                 {"output_type": "error", "ename": "ValueError", "evalue": "bad value %d" % fam,
@@ -142,7 +145,8 @@ def outputs_variant(v, ec, fam):
         return [{"output_type": "execute_result", "execution_count": ecv, "metadata": {"collapsed": False},
                  "data": {"text/plain": "<module.Foo at 0x7f3a2b1c0000>", "image/png": B64B, "image/gif": TINY_B,
                           "application/vnd.Acme.Chart+xml": XML_A.replace("bar", "pie"),
-                          "text/HTML": "<b>second run</b>\n<i>same line</i>\n"}}]
+                          "text/HTML": "<b>second run</b>\n<i>same line</i>\n",
+                          "application/json": True}}]       # a JSON payload that changes its type
     if v == 6:
         return [{"output_type": "stream", "name": "stdout", "text": LONG_STREAM},
                 {"output_type": "display_data", "metadata": {},
@@ -537,7 +541,8 @@ def _oe_base_output(kind, j):
     if kind == "display":
         return {"output_type": "display_data", "metadata": {"isolated": True},
                 "data": {"text/plain": "repr %d line one\nline two\nline three\n" % j, "text/html": "<b>bold %d</b>" % j,
-                         "image/png": B64A, "image/SVG+xml": "<svg>\n<g>line two</g>\n</svg>\n"}}
+                         "image/png": B64A, "image/SVG+xml": "<svg>\n<g>line two</g>\n</svg>\n",
+                         "application/json": {"n": 1}}}
     raise ValueError(kind)
 
 
@@ -573,6 +578,8 @@ def _oe_apply(cell, kinds, edits, listedit, tag):
             o["metadata"]["by"] = tag
         elif ed == "mime":
             o["data"]["image/png"] = B64B if tag == "local" else B64C
+            if "application/json" in o["data"]:      # the JSON payload changes its type: object -> array / number
+                o["data"]["application/json"] = [1] if tag == "local" else 1.0
         elif ed == "addmime":
             o["data"]["text/latex"] = "$x_{%s}$" % tag
         elif ed == "ec":
